@@ -23,7 +23,7 @@
 #include <unistd.h>
 
 enum OpKind { OP_NONE, OP_START, OP_LOCK, OP_TRYLOCK, OP_UNLOCK, OP_CWAIT_ENTER, OP_CWAKE, OP_RELOCK, OP_SIGNAL,
-              OP_BCAST, OP_CREATE, OP_JOIN, OP_SEM_POST, OP_SEM_WAIT, OP_SEM_TRYWAIT, OP_SEM_TIMEDWAIT };
+              OP_BCAST, OP_CREATE, OP_JOIN, OP_SEM_POST, OP_SEM_WAIT, OP_SEM_TRYWAIT, OP_SEM_TIMEDWAIT, OP_SLEEP };
 enum CandKind { C_NORMAL, C_SPUR, C_EINTR, C_TIMEOUT, C_TICK };
 enum { MAXOBJ = 16 };
 
@@ -56,7 +56,7 @@ static VThread th[SCHED_MAXT]; static int nth;
 static __thread int self = -1;
 static int prefT[SCHED_MAXPREFIX], prefA[SCHED_MAXPREFIX], nprefix, stepIndex;
 static long nowSec, nowNsec, quantum;
-static int spurBudget, eintrBudget, createFailBudget, nextTid = -1;
+static int spurBudget, eintrBudget, createFailBudget, enosysBudget, nextTid = -1;
 static char trace[1 << 17]; static int tracen;
 static char flags[256];
 static long waitSeqCounter;
@@ -148,6 +148,10 @@ static int candidates(Cand* c)
       if(eintrBudget > 0) c[n++] = Cand{t, 1, C_EINTR};
       if(S(T.obj)->count == 0 && (!T.tsValid || expired(T))) c[n++] = Cand{t, 2, C_TIMEOUT};
       if(T.tsValid && !expired(T)) tick = true;
+      if(enosysBudget > 0) c[n++] = Cand{t, 3, C_EINTR};   // ENOSYS (budgeted, never taken by the default policy)
+      break;
+    case OP_SLEEP:       // usleep: returns once the virtual clock has reached the wake-up time
+      if(expired(T)) c[n++] = Cand{t, 0, C_NORMAL}; else tick = true;
       break;
     }
   }
@@ -379,10 +383,21 @@ int nv_sem_timedwait(sem_t* s, const struct timespec* ts)
   int alt = point(OP_SEM_TIMEDWAIT, s), r = 0, e = 0;
   if(alt == 0) S(s)->count--;
   else if(alt == 1) { --eintrBudget; r = -1; e = EINTR; }
+  else if(alt == 3) { --enosysBudget; r = -1; e = ENOSYS; }
   else { r = -1; e = th[self].tsValid ? ETIMEDOUT : EINVAL; }
   pthread_mutex_unlock(&G);
   if(r) errno = e;
   return r;
+}
+int nv_usleep(useconds_t us)
+{
+  pthread_mutex_lock(&G);
+  VThread& T = th[self];
+  long ns = nowNsec + (long)(us % 1000000) * 1000L;
+  T.dsec = nowSec + (long)(us / 1000000) + ns / 1000000000L; T.dnsec = ns % 1000000000L;
+  point(OP_SLEEP, 0);
+  pthread_mutex_unlock(&G);
+  return 0;
 }
 void nv_yield(const char*, const volatile void*) {}
 }
@@ -393,7 +408,7 @@ void sched_begin(int np, const int* pt, const int* pa, long sec, long nsec, long
   nprefix = np < SCHED_MAXPREFIX ? np : SCHED_MAXPREFIX;
   for(int i = 0; i < nprefix; ++i) { prefT[i] = pt[i]; prefA[i] = pa[i]; }
   stepIndex = 0; nowSec = sec; nowNsec = nsec; quantum = q; spurBudget = spur; eintrBudget = eintr;
-  createFailBudget = 0; ndestroyed = 0; waitSeqCounter = 0; nmtx = 0; nsems = 0; nth = 1; tracen = sprintf(trace, "init:"); flags[0] = 0; nextTid = -1;
+  createFailBudget = 0; enosysBudget = 0; ndestroyed = 0; waitSeqCounter = 0; nmtx = 0; nsems = 0; nth = 1; tracen = sprintf(trace, "init:"); flags[0] = 0; nextTid = -1;
   memset(th, 0, sizeof(th));
   th[0].used = true; sem_init(&th[0].go, 0, 0); self = 0;
 }
@@ -407,6 +422,7 @@ void sched_event(const char* fmt, ...)
 }
 void sched_set_next_tid(int tid) { nextTid = tid; }
 void sched_set_create_failures(int n) { createFailBudget = n; }
+void sched_set_enosys(int n) { enosysBudget = n; }
 void sched_flag(const char* what)
 {
   pthread_mutex_lock(&G);
